@@ -23,6 +23,7 @@ func main() {
 	list := flag.Bool("list", false, "list properties")
 	ctlOnly := flag.Bool("controls", false, "run only the controls of the property (development aid)")
 	ctlName := flag.String("control", "", "with -controls: run only this control")
+	sweep := flag.Bool("sweep", false, "development aid: run the quick checks of all properties against one load of -repo; prints '=== <id> rc=<n>' after each")
 	flag.Parse()
 	if *verif == "" {
 		exe, _ := os.Executable()
@@ -36,6 +37,10 @@ func main() {
 			fmt.Println(id)
 		}
 		return
+	}
+	if *sweep {
+		// development aid: all properties against one loaded program (amd64 configuration), one summary block each
+		os.Exit(runSweep(*repo, *verif))
 	}
 	if *replay != "" {
 		os.Exit(doReplay(*replay, *repo, *verif))
@@ -147,4 +152,36 @@ func doReplay(path, repo, verif string) int {
 	}
 	fmt.Printf("replay %s: obligation %s no longer exists in the current tree\n", path, rp.Key)
 	return 0
+}
+
+func runSweep(repo, verif string) int {
+	p, err := core.Load(core.LoadConfig{Dir: repo})
+	if err != nil {
+		fmt.Printf("load: %v\n", err)
+		return 2
+	}
+	worst := 0
+	for _, id := range props.IDs() {
+		if len(id) != 3 || id[0] != 'C' {
+			continue // development registries
+		}
+		rep := core.NewReport(id, "quick")
+		rep.Config = "amd64"
+		func() {
+			defer func() {
+				if r := recover(); r != nil {
+					rep.Errorf("checker panic: %v\n%s", r, debug.Stack())
+				}
+			}()
+			rep.Count("packages", len(p.Pkgs))
+			rep.Count("functions", len(p.Funcs))
+			props.Registry[id](props.NewCtx(p, rep, "quick"))
+		}()
+		rc := rep.Finish(verif)
+		fmt.Printf("=== %s rc=%d\n", id, rc)
+		if rc > worst {
+			worst = rc
+		}
+	}
+	return worst
 }
